@@ -64,30 +64,31 @@ type runRec struct {
 	debug bytes.Buffer
 	notes []string
 
-	barsMu sync.RWMutex
-	bars   []*mpb.Bar
-	ptr2ix sync.Map // *mpb.Bar -> spec index
+	barsMu    sync.RWMutex
+	bars      []*mpb.Bar
+	ptr2ix    sync.Map // *mpb.Bar -> spec index
 	addFailed []atomic.Bool
 
 	listenerCalls [][]int32 // [bar][listener ordinal]
 	listenerN     []int
 	renderK       []int64 // per bar render counter (marker)
 
-	p          *mpb.Progress
-	cancel     context.CancelFunc
-	manualCh   chan interface{}
-	delayCh    chan struct{}
-	notifCh    chan interface{}
-	uwg        *sync.WaitGroup
-	quit       chan struct{} // closed when the scenario is over (releases harness-side selects)
-	cancelled  atomic.Bool
-	pty        *ptyPair
-	mem        *memWriter
-	hookOcc    [hpCount]atomic.Int64
-	trigFired  atomic.Bool
-	trigMatch  atomic.Int64
-	perturbN   atomic.Int64
-	delaysN    atomic.Int64
+	p           *mpb.Progress
+	cancel      context.CancelFunc
+	manualCh    chan interface{}
+	delayCh     chan struct{}
+	notifCh     chan interface{}
+	uwg         *sync.WaitGroup
+	quit        chan struct{} // closed when the scenario is over (releases harness-side selects)
+	cancelled   atomic.Bool
+	pty         *ptyPair
+	mem         *memWriter
+	hookOcc     [hpCount]atomic.Int64
+	trigFired   atomic.Bool
+	refreshDead atomic.Bool
+	trigMatch   atomic.Int64
+	perturbN    atomic.Int64
+	delaysN     atomic.Int64
 
 	// phases (logical clock values, 0 = not reached)
 	tWaitInv, tWaitRet atomic.Int64
@@ -96,16 +97,16 @@ type runRec struct {
 	finished           atomic.Bool
 
 	// results
-	notif        [][]int // bar indices per notifier receive
-	notifExtra   int
-	postWait     []getterSnap
-	lateMsgs     []string
-	leak         string
-	stuckDump    string
-	stuckSig     string
-	stuckKind    string // "" | deadlock | livelock | watchdog
-	wallStart    time.Time
-	goroutines0  int
+	notif       [][]int // bar indices per notifier receive
+	notifExtra  int
+	postWait    []getterSnap
+	lateMsgs    []string
+	leak        string
+	stuckDump   string
+	stuckSig    string
+	stuckKind   string // "" | deadlock | livelock | watchdog
+	wallStart   time.Time
+	goroutines0 int
 }
 
 // ---------------------------------------------------------------- recording
@@ -205,8 +206,17 @@ func (rr *runRec) hook(pi int, bar *mpb.Bar, a, b int) {
 		}
 	}
 	occ := rr.hookOcc[pi].Add(1)
-	if pi == hpRenderEnd && rr.pty != nil {
-		rr.pty.cut()
+	if rr.pty != nil {
+		switch pi {
+		case hpRenderBegin:
+			rr.pty.expectRows.Store(0)
+			rr.pty.expectBytes.Store(false)
+		case hpFlushWrite:
+			rr.pty.expectRows.Store(int64(a))
+			rr.pty.expectBytes.Store(a > 0)
+		case hpRenderEnd:
+			rr.pty.cut()
+		}
 	}
 	rr.mu.Lock()
 	rr.hooks = append(rr.hooks, HookRec{T: t, P: pi, Bar: bi, A: a, B: b})
@@ -298,7 +308,7 @@ type ewmaDec struct {
 }
 
 func (e *ewmaDec) Decor(decor.Statistics) (string, int) { return e.Format("(e)") }
-func (e *ewmaDec) EwmaUpdate(n int64, d time.Duration)   { e.n.Add(n) }
+func (e *ewmaDec) EwmaUpdate(n int64, d time.Duration)  { e.n.Add(n) }
 
 func sgrWrap(s string) string { return "\x1b[32m" + s + "\x1b[0m" }
 
@@ -329,11 +339,11 @@ func (rr *runRec) buildDec(bi int, side string, ord int, d DecSpec) decor.Decora
 			return fmt.Sprintf("{%s%d:%s}", side, ord, strings.Repeat("x", n))
 		}, wc)
 	case "pct":
-		x = decor.NewPercentage("%d", wc)
+		x = decor.NewPercentage("(%d)", wc)
 	case "counters":
-		x = decor.CountersNoUnit("%d/%d", wc)
+		x = decor.CountersNoUnit("(%d/%d)", wc)
 	case "name":
-		x = decor.Name(fmt.Sprintf("n%d", bi), wc)
+		x = decor.Name(fmt.Sprintf("(n%d)", bi), wc)
 	case "listener":
 		l := &listenerDec{WC: wc, rr: rr, bar: bi, ord: rr.listenerN[bi], text: fmt.Sprintf("(L%d)", rr.listenerN[bi])}
 		l.WC.Init()
@@ -359,15 +369,15 @@ func (rr *runRec) buildDec(bi int, side string, ord int, d DecSpec) decor.Decora
 	for i := 0; i < depth; i++ {
 		switch d.Wrap {
 		case "oncomplete":
-			x = decor.OnComplete(x, "DONE")
+			x = decor.OnComplete(x, "(DONE)")
 		case "onabort":
-			x = decor.OnAbort(x, "ABRT")
+			x = decor.OnAbort(x, "(ABRT)")
 		case "both":
-			x = decor.OnCompleteOrOnAbort(x, "FIN")
+			x = decor.OnCompleteOrOnAbort(x, "(FIN)")
 		case "meta":
 			x = decor.Meta(x, sgrWrap)
 		case "deep":
-			x = decor.OnComplete(decor.Meta(decor.OnAbort(x, "ABRT"), sgrWrap), "DONE")
+			x = decor.OnComplete(decor.Meta(decor.OnAbort(x, "(ABRT)"), sgrWrap), "(DONE)")
 		}
 	}
 	return x
@@ -491,7 +501,12 @@ func (rr *runRec) refresh() bool {
 	if rr.manualCh == nil {
 		return false
 	}
-	for i := 0; i < 4000; i++ {
+	limit := 200 * time.Millisecond
+	if rr.refreshDead.Load() {
+		limit = 5 * time.Millisecond // the listener did not take an earlier request: it is most likely gone
+	}
+	start := time.Now()
+	for {
 		select {
 		case rr.manualCh <- time.Now():
 			return true
@@ -500,9 +515,12 @@ func (rr *runRec) refresh() bool {
 		if rr.cancelled.Load() || rr.tWaitRet.Load() != 0 || rr.finished.Load() {
 			return false
 		}
+		if time.Since(start) > limit {
+			rr.refreshDead.Store(true)
+			return false
+		}
 		time.Sleep(50 * time.Microsecond)
 	}
-	return false
 }
 
 func (rr *runRec) addBar(bi int) string {
@@ -538,7 +556,7 @@ func (rr *runRec) doOp(client, idx int, op Op) {
 	var b *mpb.Bar
 	needsBar := true
 	switch op.K {
-	case "add", "write", "refresh", "cancel", "shutdown", "release", "waitcycles":
+	case "add", "write", "refresh", "rw", "cancel", "shutdown", "release", "waitcycles":
 		needsBar = false
 	}
 	if needsBar {
@@ -566,6 +584,20 @@ func (rr *runRec) doOp(client, idx int, op Op) {
 		} else {
 			res = "dropped"
 		}
+	case "rw":
+		// refresh and wait until that render cycle is over (deterministic manual mode)
+		n0 := hk.counts[hpRenderEnd].Load()
+		if rr.refresh() {
+			if waitCount(hpRenderEnd, n0+1, 2*time.Second) {
+				res = "rendered"
+			} else {
+				res = "taken"
+			}
+		} else {
+			res = "dropped"
+		}
+	case "slowtraverse":
+		b.TraverseDecorators(func(decor.Decorator) { time.Sleep(time.Duration(op.N) * time.Microsecond) })
 	case "cancel":
 		rr.cancelled.Store(true)
 		rr.cancel()
